@@ -69,7 +69,7 @@ def stage_count(ctx):
     for i in bad[:5]:
         st.violation('count-mismatch', f'Model/FailCount.v and _read_from_socket disagree on history {descr[i]}: implementation {cases[i][1]}',
                      dict(history=descr[i], implementation=cases[i][1]), no_input=True)
-    bad, err = C.eval_cases('c09gen', 'FailCount InvProg InverterGen InvProgRefine', gcases, shard=700)
+    bad, err = C.eval_cases('c09gen', 'FailCount InvProg InverterGen InvProgInst', gcases, shard=700)
     if err: st.violation('count-eval', f'evaluation of the generated shape failed: {err[:300]}', dict(error=err), no_input=True)
     for i in bad[:5]:
         st.violation('count-mismatch', f'the shape generated from _read_from_socket (Gen/InverterGen.v) and the method itself disagree on history {descr[i]}: implementation {gcases[i][1]}',
